@@ -21,7 +21,7 @@ MANIFEST = {
     "C07": dict(
         technique="Lean 4 proof (PARTIAL): the signal handler as a decision function proved equal to the control-flow skeleton extracted from detail::on_signal on all 512 contexts, its effect on the caller's queue composed with the flush/drain contracts, the start/stop life-cycle as a state machine with an invariant over all operation sequences and an induction over any number of start/stop cycles; process-level crash-point enumeration on the real library (fork per case, real backend thread, real FileSink, real signals, wait status and file read from outside) compared with the model's predictions and checked by the property oracle",
         text="PARTIAL. Machine-checked (Lean 4): (1) detail::on_signal, as extracted statement by statement from SignalHandler.h, makes exactly the calls of the decision function Exit.onSignal on every context (signal, first/later entrant, backend id published or not, on the backend thread or not, logger found or not, re-raise flag); (2) for every signal — in particular SIGSEGV SIGABRT SIGFPE SIGILL SIGINT SIGTERM, which are proved to be exactly the default catchable_signals — raised on a frontend thread that has a logger while a backend started with the handler runs: the notice(s) are enqueued on that thread's own queue behind every earlier statement of that thread (any number of statements, any split into already-written and still-queued = backend idle or busy, any logger level), then flush_log, and only then the default action is restored and the signal re-raised (exit(EXIT_SUCCESS) for SIGINT/SIGTERM), so with the contracts of flush_log (C06) and per-thread FIFO (C03) the destination holds all earlier statements followed by the notice and nothing remains queued; on the backend thread or without a published backend id nothing is logged, flushed or parked and the process ends at once; a later entrant only parks; (3) the life-cycle machine (once-flag, running flag, worker id, the id cached for the signal handler, atexit registrations) keeps an invariant over every sequence of start / start-with-handler / stop / exit; after any number of cycles (induction over the cycle list, each with redundant starts and stops) the next start yields a running backend on a fresh thread; stop on a stopped backend and start on a running one change nothing; exactly one atexit handler per spawned thread (at most one while no stop intervenes); exit stops, drains and joins whatever runs and clears the handler's id; the handler's id is never stale (repair of F23; the unrepaired variant, the un-renewed once-flag, a notice after the flush, no flush, raise without SIG_DFL, SIGTERM re-raised are refuted by witnesses). NOT proved, only enumerated on the real process by harness H4: wait statuses (WIFSIGNALED/WTERMSIG, WEXITSTATUS), the order of atexit handlers and static destructors, the signal mask inherited by the backend thread, pause() and the alarm time-out — runtime behaviour outside a pure model; the drain of _exit itself (all queues and transit buffers empty, sinks flushed) is the theorem of the backend model (exitLoop, separate bundle, audited here when present). Tie: extraction of the handler skeleton, the catchable list, the structure of BackendWorker::run/stop/_exit (leaves only when queues AND transit buffers are empty or the option is off, flushes the sinks before leaving), both Backend::start overloads (call_once on the current flag, mask-spawn-publish-unmask order, one atexit), stop_backend_thread (fresh once_flag), ~ManualBackendWorker, wait_for_queues_to_empty_before_exit = true, with `decide`d obligations; H4 forks a child per case that runs the real backend thread and a real FileSink, 0..3 extra logging threads (finished / alive / still logging), System or Tsc clock, backend busy (1500 statements queued right before) or idle (after a flush), and at every crash point between the main thread's statements performs stop (then restart cycles), return from main, exit, exit from another thread, or a handled signal (raise, kill, real null dereference / division by zero / illegal instruction / abort, on the main or an extra thread), plus signals after stop, without backend, without logger, with re-raise off and a second entrant, on the backend thread, with a Warning-level logger; the parent reads the file and the wait status from outside, the Lean driver recomputes status / notices / is_running / ids / masks from the model, and the oracle checks: every completed statement once and in thread order, in the file already when stop() returns, notice after the signalled thread's last statement, wait status = original signal or exit 0.",
-        note="PARTIAL for the reason above (process-level facts are enumerated, not proved). Sequential model of start/stop (no concurrent start/stop from several threads). Statements of *other* threads at a signal are only checked for order/no duplication (their completeness is C06's ordering premise). Observed and left as is: on_alarm re-raises the stored signal on the thread it runs on; if that thread is stuck inside the handler of that same signal the re-raise stays masked (the alarm cannot end such a process) — second cause of F23, the first (stale backend id after stop) is fixed. Exit paths (return from main, exit(), exit from another thread, SIGINT/SIGTERM through the handler) are taken with every other thread at rest (finished threads joined, alive threads parked outside the library, concurrently logging threads paused): a thread that is inside a log call, makes its first call or ends while exit() destroys the library's singletons is undefined behaviour of the program ([basic.start.term]; seen under load as rare heap-corruption aborts or hangs during ~LoggerManager), not a case of the property; crashes and stop()/start() are exercised with threads in mid-flight. A complaint about how a process ended is reported only if it reproduces in 3 re-runs of the case on its own (otherwise evidence.flaky_cases). A signal on a frontend thread when no valid logger exists is swallowed (handler returns without re-raising); `exit` from the handler on the backend thread would join itself — both outside the property's premise.",
+        note="PARTIAL for the reason above (process-level facts are enumerated, not proved). start/stop are sequential in the life-cycle machine; ONE concurrent situation is modelled step by step (Exit/Stop.lean): a handled signal on a frontend thread while another thread is inside Backend::stop() or the process inside the atexit stop — stop() as its extracted sequence of atomic steps (stop request, wake, join, forget worker id, fresh once-flag, clear the id the handler reads), the backend thread leaving in the background (writes, its last look at the queues, end), the handler in two phases (reads the id / enqueues and waits), every schedule: served at every point before the backend's last look at the queues (C07_signal_during_stop_served, for the order as extracted: Obligations.C07_signal_during_stop_extracted), and EXACTLY there (C07_signal_during_stop_exact) — after that look and until stop() returns the handler hangs and the notice is lost: finding F27 (known_findings.json; reproduced by H4 with a gate sink that holds the backend inside the final flush of _exit: corpus/C07/f27_*.txt). wait_for_queues_to_empty_before_exit is a parameter of stop/exit in the model (LParams.waitOnExit): with it off stop() reads nothing more — destination and queue stay as they were at the stop request, nothing is lost from the queue or reordered, a later start serves the rest (C07_nowait_*); the signal half is proved for both settings (C07_signal_independent_of_wait_option) and H4 runs about half of its signal cases with the option off. Refuted by decide: the SIGINT/SIGTERM branch without flush_log under the option off (seeded C07_m2), the id cleared before stop_backend_thread (seeded C07_m3). Statements of *other* threads at a signal are only checked for order/no duplication (their completeness is C06's ordering premise). Observed and left as is: on_alarm re-raises the stored signal on the thread it runs on; if that thread is stuck inside the handler of that same signal the re-raise stays masked (the alarm cannot end such a process) — second cause of F23, the first (stale backend id after stop) is fixed. Exit paths (return from main, exit(), exit from another thread, SIGINT/SIGTERM through the handler) are taken with every other thread at rest (finished threads joined, alive threads parked outside the library, concurrently logging threads paused): a thread that is inside a log call, makes its first call or ends while exit() destroys the library's singletons is undefined behaviour of the program ([basic.start.term]; seen under load as rare heap-corruption aborts or hangs during ~LoggerManager), not a case of the property; crashes and stop()/start() are exercised with threads in mid-flight. A complaint about how a process ended is reported only if it reproduces in 3 re-runs of the case on its own (otherwise evidence.flaky_cases). A signal on a frontend thread when no valid logger exists is swallowed (handler returns without re-raising); `exit` from the handler on the backend thread would join itself — both outside the property's premise.",
         ref="§5 C07, §3.1 H4, §7 F23"),
 }
 
@@ -43,6 +43,18 @@ THEOREMS = [
     "Obligations.exit_wait_for_queues_default", "Obligations.exit_worker_structure", "Obligations.exit_drain_structure",
     "Obligations.exit_start_stop_structure", "Obligations.exit_handler_installation", "Obligations.C07_signal_extracted",
     "Obligations.C07_restart_extracted", "Obligations.C07_program_extracted",
+    # wait_for_queues_to_empty_before_exit as a parameter; a handled signal while another thread is inside stop()
+    "Exit.C07_signal_independent_of_wait_option", "Exit.C07_neg_graceful_exit_without_flush", "Exit.C07_nowait_stop_keeps_state",
+    "Exit.C07_nowait_stop_may_leave_unwritten", "Exit.C07_nowait_program_conservation", "Exit.C07_nowait_exit",
+    "Exit.C07_stop_id_set_until_backend_gone", "Exit.C07_stop_interleaving_conservation", "Exit.C07_signal_during_stop_served",
+    "Exit.C07_signal_during_stop_after_last_look_hangs", "Exit.C07_signal_during_stop_exact",
+    "Exit.C07_window_keeps_earlier_statements", "Exit.C07_F27_signal_after_last_look", "Exit.C07_neg_id_cleared_before_stop",
+    "Obligations.exit_stop_sequence", "Obligations.C07_signal_during_stop_extracted",
+    # process-directed kill with several threads: outcome by the class of the receiving thread
+    "Exit.C07_kill_outcome_by_receiver", "Exit.C07_kill_whichever_logged_thread", "Exit.C07_kill_never_logged_thread",
+    "Exit.C07_kill_candidates",
+    # candidate repair of F27
+    "Exit.C07_stop_model_waits_for_ever", "Exit.C07_F27_repair_never_hangs", "Obligations.C07_signal_during_stop_extracted_flush",
 ]
 MODULES = ["QuillModel.Props.C07"]
 OBLIG = ["QuillModel.Obligations.Exit"]
@@ -53,6 +65,22 @@ SIGNALS = ["SIGSEGV", "SIGABRT", "SIGFPE", "SIGILL", "SIGINT", "SIGTERM"]
 FAULT = {"SIGSEGV": "fault", "SIGFPE": "fault", "SIGILL": "fault", "SIGABRT": "abort"}
 THREADS = ["-", "f3", "a3", "f2;a2", "f3;f1;a2", "a2;a2;f4", "c4000", "f2;c3000"]
 BUSY = "L1500"
+CRASH = ["SIGSEGV", "SIGABRT", "SIGFPE", "SIGILL"]
+F27_TEXT = ("a handled signal on a frontend thread while another thread is inside Backend::stop() (or the atexit stop), after the "
+            "backend thread's last look at the queues in _exit() and before stop() has cleared the id the handler reads: the handler "
+            "logs and waits in flush_log() for a backend thread that never looks again — the process hangs, the notice is lost "
+            "(with wait_for_queues_to_empty_before_exit off also the thread's statements still queued at the stop request)")
+
+
+def is_f27_class(spec):
+    """input class of F27: a signal timed inside another thread's stop *after* the backend's last look at the queues
+    (held there by the gate of `Gs`; with the option off the last look is the stop request itself)"""
+    m = re.search(r"script=(\S+)", spec or "")
+    if not m:
+        return False
+    ops = m.group(1).split(",")
+    inside = any(o.startswith("tstop:") or o.startswith("tsigx:") for o in ops)
+    return inside and ("Gs" in ops or " wait=0 " in spec)
 
 
 def drain_bundle():
@@ -79,9 +107,9 @@ def life_args(ex):
 # case generation
 # ----------------------------------------------------------------------------------------------------
 
-def case_line(cid, script, clock="sys", lvl="info", logger=1, reraise=1, timeout=120, limit=100, threads="-"):
-    return "case %s clock=%s lvl=%s logger=%d reraise=%d timeout=%d limit=%d threads=%s script=%s" % (
-        cid, clock, lvl, logger, reraise, timeout, limit, threads, ",".join(script))
+def case_line(cid, script, clock="sys", lvl="info", logger=1, reraise=1, timeout=120, limit=100, threads="-", wait=1):
+    return "case %s clock=%s lvl=%s logger=%d reraise=%d%s timeout=%d limit=%d threads=%s script=%s" % (
+        cid, clock, lvl, logger, reraise, "" if wait else " wait=0", timeout, limit, threads, ",".join(script))
 
 
 def crash_point_cases(prefix, n_stmts, thread_cfgs, rng, every_cfg):
@@ -112,7 +140,61 @@ def crash_point_cases(prefix, n_stmts, thread_cfgs, rng, every_cfg):
                             sc += ["L%d" % rest, "ret" if k % 2 else "exit"]
                         else:
                             sc += [act]
-                        out.append(case_line("%s%d" % (prefix, k), sc, clock=clock, threads=th))
+                        # the signal half does not depend on wait_for_queues_to_empty_before_exit: half of the signal cases run with it off
+                        out.append(case_line("%s%d" % (prefix, k), sc, clock=clock, threads=th, wait=0 if is_sig and rng.random() < 0.5 else 1))
+    return out
+
+
+def stop_window_cases(prefix, rng, full):
+    """signals timed with the gate sink of H4. (1) statements provably still queued (the backend is held inside a
+    write_log) when the signal arrives, option on and off, all six signals; (2) a crash signal while another thread is
+    inside Backend::stop() / the process inside the atexit stop and the backend, held in mid-write, still has to drain:
+    main raises while a thread stops, a thread raises while main stops / exits / returns. (The points after the backend's
+    last look at the queues are finding F27: corpus/C07/f27_*.txt.)"""
+    out = []
+    k = 0
+    ps = [0, 1, 3, 6] if full else [0, 3]
+    qs = [1, 2, 5] if full else [2]
+    for p in ps:
+        for q in qs:
+            for s in SIGNALS:
+                for wait in (1, 0):
+                    k += 1
+                    sc = ["H", "L%d" % p, "F", "Gw", "L%d" % q, "Bw", "sig:%s:raise" % s]
+                    out.append(case_line("%s%d" % (prefix, k), sc, clock="tsc" if k % 3 == 0 else "sys", wait=wait,
+                                         threads="a2" if s in CRASH and k % 2 else "-"))
+            for s in CRASH:
+                for form in ("tstop", "X", "exit", "ret"):
+                    k += 1
+                    sc = ["H", "L%d" % p, "W", "F", "Gw", "L%d" % q, "Bw"]
+                    sc += ["tstop:1", "sig:%s:raise" % s] if form == "tstop" else ["tsigx:1:%s" % s, form]
+                    out.append(case_line("%s%d" % (prefix, k), sc, clock="tsc" if k % 3 == 0 else "sys",
+                                         threads=rng.choice(["a2", "a1;f2", "a3;a1"])))
+    return out
+
+
+def kill_cases(prefix, rng, full):
+    """process-directed kill(getpid(), SIG) with several threads: the masks leave the kernel's choice open (any), or leave
+    exactly the main thread, one logging thread, one thread that never logged, the backend thread (a sink unblocks the
+    signal there), or nobody (the signal stays pending and the program goes on). The oracle applies the property only
+    when the receiving thread (producer of the notice, recorded by a sink) has logged before."""
+    out = []
+    k = 0
+    cfgs = ["a2;n0;a3", "n0;a1", "a3;f2;n0"] if full else ["a2;n0;a3"]
+    for p in ([0, 2, 5] if full else [3]):
+        for th in cfgs:
+            n_idx = th.split(";").index("n0") + 1
+            a_idx = next(i + 1 for i, t in enumerate(th.split(";")) if t[0] == "a")
+            for s in SIGNALS:
+                for spec in ("any", "m", "t%d" % a_idx, "t%d" % n_idx, "b", "none"):
+                    if spec == "b" and s not in CRASH:
+                        continue          # exit() on the backend thread joins itself: outside the model
+                    for busy in (True, False):
+                        k += 1
+                        sc = ["H", "L%d" % p, "W"] + (["L200"] if busy and spec != "b" else ["F"])
+                        sc += ["ksig:%s:%s" % (s, spec)] + (["L2", "ret"] if spec == "none" else [])
+                        out.append(case_line("%s%d" % (prefix, k), sc, clock="tsc" if k % 2 else "sys", threads=th, limit=30,
+                                             wait=0 if k % 5 == 0 and spec != "none" else 1))
     return out
 
 
@@ -129,7 +211,7 @@ def thread_signal_cases(prefix, n_stmts, rng, full):
                     for th in cfgs:
                         k += 1
                         sc = ["H", "L%d" % p, "W"] + ([BUSY] if busy else ["F", "Z3"]) + ["tsig:1:%s" % s]
-                        out.append(case_line("%s%d" % (prefix, k), sc, clock=clock, threads=th))
+                        out.append(case_line("%s%d" % (prefix, k), sc, clock=clock, threads=th, wait=0 if rng.random() < 0.5 else 1))
     for i in range(len(SIGNALS) * (5 if full else 2)):
         st = SIGNALS[i % len(SIGNALS)]
         sm = SIGNALS[(i + 1 + i // len(SIGNALS)) % len(SIGNALS)]
@@ -184,7 +266,8 @@ def lifecycle_cases(prefix, n, rng):
             sc += ["sig:%s:raise" % rng.choice(SIGNALS)]      # after a stop, or in a cycle started without the handler
         else:
             sc += [rng.choice(["ret", "exit"])]
-        out.append(case_line("%s%d" % (prefix, i), sc, clock=rng.choice(["sys", "tsc"]), threads=rng.choice(THREADS)))
+        out.append(case_line("%s%d" % (prefix, i), sc, clock=rng.choice(["sys", "tsc"]), threads=rng.choice(THREADS),
+                             wait=0 if rng.random() < 0.25 else 1))
     return out
 
 
@@ -223,10 +306,14 @@ def gen_cases(tier, seed, after_stop_limit):
     if tier == "quick":
         cases += crash_point_cases("p", 4, THREADS, rng, every_cfg=True)
         cases += thread_signal_cases("t", 4, rng, full=False)
+        cases += stop_window_cases("w", rng, full=False)
+        cases += kill_cases("k", rng, full=False)
         cases += lifecycle_cases("l", 200, rng)
     else:
         cases += crash_point_cases("p", 8, THREADS, rng, every_cfg=True)
         cases += thread_signal_cases("t", 8, rng, full=True)
+        cases += stop_window_cases("w", rng, full=True)
+        cases += kill_cases("k", rng, full=True)
         cases += lifecycle_cases("l", 4000, rng)
     return cases
 
@@ -322,7 +409,8 @@ def run(prop, tier):
         "PARTIAL: wait status, atexit / static-destructor order, inherited signal masks, pause() and the alarm time-out are run-time behaviour enumerated by H4 on the real process, not proved",
         "flush_log returns only after everything the caller enqueued before is written and flushed (C06) and a thread's statements are delivered in the order it enqueued them (C03): used as the contract of `flush` / of the exit drain in the model (Fe.drain); the drain of BackendWorker::_exit is the theorem of the backend model (exitLoop)",
         "glibc semantics of std::signal (handler installed with the signal itself masked, so a raise inside the handler fires when it returns) and default action 'terminate' for every catchable signal",
-        "start/stop are called sequentially (the model has no concurrent start/stop); thread ids are non-zero and fresh",
+        "start/stop are called sequentially in the life-cycle machine; the one concurrent situation modelled step by step is a handled signal while ANOTHER thread is inside stop() / the atexit stop (Exit/Stop.lean: steps of stop() atomic, sequentially consistent); thread ids are non-zero and fresh",
+        "H4 times a signal against the backend with a gate sink (first sink of the logger) whose write_log / flush_sink block until the harness's condition holds (handler entered + 30 ms, stop requested); the 30 ms are an assumption about how long the handler needs from its entry to its log calls",
         "when exit() runs (return from main, exit(), SIGINT/SIGTERM through the handler) no other thread is inside a call of the library, making its first call or ending — the C++ rule for objects with static storage duration; H4 brings the other threads to rest before these paths",
         "the signalled thread has logged or preallocated before (documented requirement of the signal handler); the signal arrives between two log statements, not inside one",
     ]
@@ -350,7 +438,8 @@ def run(prop, tier):
     after_stop_limit = 100 if pargs[1] == "1" else 8
     scratch = tempfile.mkdtemp(prefix="h4_exit_", dir="/tmp")
     state = dict(cases=0, traces=0, oracle=[], mismatches=[], aborts=[], classes={}, statuses={}, nontrivial=set(), samples=[],
-                 done=[], stats=[], stmts=0, unspecified=0, two_entrants={}, flaky=[], not_rerun=[])
+                 done=[], stats=[], stmts=0, unspecified=0, two_entrants={}, flaky=[], not_rerun=[], f27=[], f27_cases=set(),
+                 f27_run=0, wait_off=0, inside_stop=0, kill={})
 
     def process(res):
         by_id, tr = {}, {}
@@ -358,6 +447,10 @@ def run(prop, tier):
             if ln.startswith("case "):
                 by_id[case_id(ln)] = ln
                 state["cases"] += 1
+                spec0 = ln.split(" => ")[0]
+                state["wait_off"] += 1 if " wait=0 " in spec0 else 0
+                state["inside_stop"] += 1 if ("tstop:" in spec0 or "tsigx:" in spec0) else 0
+                state["f27_run"] += 1 if is_f27_class(spec0) else 0
                 m = re.search(r"status=(\S+)", ln)
                 if m:
                     state["statuses"][m.group(1)] = state["statuses"].get(m.group(1), 0) + 1
@@ -365,6 +458,10 @@ def run(prop, tier):
                 if m:
                     who = "thread-first" if m.group(3) == m.group(1) else "main-first" if m.group(3) == m.group(2) else "no-notice"
                     state["two_entrants"][who] = state["two_entrants"].get(who, 0) + 1
+                m = re.search(r"ksig:[A-Z0-9]+:(\w+)\S* => .* who=(\S+)", ln)
+                if m:
+                    key = "masks=%s receiver=%s" % (re.sub(r"\d+", "", m.group(1)), "main" if m.group(2) == "0" else "extra-thread" if m.group(2).isdigit() else m.group(2))
+                    state["kill"][key] = state["kill"].get(key, 0) + 1
                 m = re.search(r"found=(\S+)", ln)
                 if m and m.group(1) != "-":
                     state["stmts"] += sum(int(x) for x in m.group(1).split(","))
@@ -381,7 +478,12 @@ def run(prop, tier):
         for ln in res["out"].split("\n"):
             if ln.startswith("ORACLE "):
                 m = re.search(r"case=(\S+)", ln)
-                state["oracle"].append((res["label"], ln, by_id.get(m.group(1)) if m else None, errs.get(m.group(1)) if m else None))
+                hit = (res["label"], ln, by_id.get(m.group(1)) if m else None, errs.get(m.group(1)) if m else None)
+                if "F27" in known and is_f27_class((hit[2] or "").split(" => ")[0]):
+                    state["f27"].append(hit)          # listed finding, recognised by its input class
+                    state["f27_cases"].add(hit[2])
+                else:
+                    state["oracle"].append(hit)
         if res["rc"] not in (0, 3):
             state["aborts"].append((res["label"], "harness h4_exit ended with rc=%d: %s" % (res["rc"], res["out"][-300:]), None))
         for ln in res["dout"].split("\n"):
@@ -495,8 +597,16 @@ def run(prop, tier):
         if state["flaky"]:
             ck.notes.append("%d case(s) ended differently from the expectation in the parallel run but did not do so in %d re-runs on their own: "
                             "recorded under coverage.flaky_cases, not a violation" % (len(state["flaky"]), RERUNS))
+        if state["f27"]:
+            kinds = sorted({hit_kind(h[1]) for h in state["f27"]})
+            ck.known("F27 reproduces in %d of %d cases of its input class (%s), e.g. %s | %s; replay=corpus/C07/f27_signal_inside_stop_after_last_look.txt" % (
+                len(state["f27_cases"]), state["f27_run"], ", ".join(kinds), state["f27"][0][1][:160],
+                re.sub(r"^KNOWN-FINDING: property=\S+ F27 ", "", known["F27"].get("line", F27_TEXT))[:300]))
+        elif "F27" in known:
+            ck.notes.append("listed finding F27 did not reproduce in this run (%d cases of its input class ran)" % state["f27_run"])
         for fid in sorted(known):
-            ck.notes.append("listed finding %s is not reproduced by a dedicated class in this check" % fid)
+            if fid != "F27":
+                ck.notes.append("listed finding %s is not reproduced by a dedicated class in this check" % fid)
 
         ck.cov.update({
             "evaluations": state["cases"],
@@ -507,6 +617,10 @@ def run(prop, tier):
                     "queued at the action (1500-statement burst right before it), or other logging threads existed, or the programme had at least "
                     "two stop() calls; distinct = distinct case specifications (SHA-1 of the spec without its id)",
             "cases_by_model_class": state["classes"],
+            "cases_with_wait_for_queues_to_empty_before_exit_off": state["wait_off"],
+            "cases_with_a_signal_inside_another_threads_stop_or_the_atexit_stop": state["inside_stop"],
+            "cases_of_the_input_class_of_F27": state["f27_run"],
+            "process_directed_kill (masks set by the harness -> thread the handler ran on)": state["kill"],
             "wait_statuses": state["statuses"],
             "two_threads_raising_at_once (which entered first)": state["two_entrants"],
             "samples": state["samples"],
